@@ -11,6 +11,12 @@ use std::fs::File;
 use std::str::FromStr;
 #[cfg(tiny_http_verif)]
 use crate::verif_rt::time::SystemTime;
+#[cfg(tiny_http_verif)]
+impl From<SystemTime> for HttpDate {
+    fn from(t: SystemTime) -> HttpDate {
+        HttpDate::from(std::time::SystemTime::from(t))
+    }
+}
 #[cfg(not(tiny_http_verif))]
 use std::time::SystemTime;
 
